@@ -29,13 +29,7 @@ RULE = ("union of five complete lattices: [tableau] fixed-step method x grid (si
         "h-halving; [reject] method x non-1-D ts shapes.  Thorough adds value planes (rates / initial values scaled by "
         "seed-derived factors).  distinct = distinct observation hashes (extracted coefficients, error ratios, step "
         "counts); a case is trivial only for the single-time-point grid")
-RULE_ADDED = ('Added later: stage-2 conformance of every accepted adaptive step, per-step error budgets with the si'
-              'gned logarithmic norm, purely relative tolerances, call-order plane in fresh interpreters, mixdt (fl'
-              'oat32 time grid with float64 state: dtype, y[0] == y0 bit for bit, agreement with the float64 grid).'
-              ' Round 4: nested plane (the right-hand side calls solve_ivp re-entrantly with the same method and st'
-              'ate size). Round 5: domain plane (adaptive method x right-hand sides that are NaN outside the half sp'
-              'ace containing the exact solution x long first output intervals x tolerances x dtype: the trial ste'
-              'p that leaves the domain has to be rejected; finite result within the global error bound).')
+RULE_ADDED = 'Added later: stage-2 conformance of every accepted adaptive step, per-step error budgets with the signed logarithmic norm, purely relative tolerances, call-order plane in fresh interpreters, mixdt (float32 time grid with float64 state: dtype, y[0] == y0 bit for bit, agreement with the float64 grid). Round 4: nested plane (the right-hand side calls solve_ivp re-entrantly with the same method and state size). Round 5: domain plane (adaptive method x right-hand sides that are NaN outside the half space containing the exact solution x long first output intervals x tolerances x dtype: the trial step that leaves the domain has to be rejected; finite result within the global error bound). Round 6: evaluation budget of the spied right-hand side (100 000 per solve; exceeding it is a violation).'
 ASSUMPTIONS = [
     "the right-hand side is evaluated once at the start and then s times per attempted step of rk23/rk45, the last "
     "evaluation being at the end of the step (used only to read accept/reject and step counts from the call log; "
